@@ -127,13 +127,31 @@ Proof.
   - cbn [wdom] in Hw. destruct (esc o x) as [|ch e] eqn:Ee; inversion He; subst E; exists 1; (split; [|reflexivity]).
     + apply close_or_empty_elems; [exact Hk | reflexivity].
     + apply elems_text; [exact Hk | reflexivity | exact Hw].
-  - inversion He; subst E. exists 1. split; [|reflexivity]. apply elems_text; [exact Hk | reflexivity | exact Hw].
+  - cbn [wdom] in Hw. match type of He with context [fmt_v ?w] => destruct (fmt_v w) as [|ch e] end;
+      inversion He; subst E; exists 1; (split; [|reflexivity]).
+    + apply close_or_empty_elems; [exact Hk | reflexivity].
+    + apply elems_text; [exact Hk | reflexivity | exact Hw].
   - inversion He; subst E. exists 1. split; [|reflexivity]. apply close_or_empty_elems; [exact Hk | reflexivity].
-  - inversion He; subst E. exists 1. split; [|reflexivity]. apply elems_text; [exact Hk | reflexivity | exact Hw].
-  - inversion He; subst E. exists 1. split; [|reflexivity]. apply elems_text; [exact Hk | reflexivity | exact Hw].
-  - inversion He; subst E. exists 1. split; [|reflexivity]. apply elems_text; [exact Hk | reflexivity | exact Hw].
-  - inversion He; subst E. exists 1. split; [|reflexivity]. apply elems_text; [exact Hk | reflexivity | exact Hw].
-  - inversion He; subst E. exists 1. split; [|reflexivity]. apply elems_text; [exact Hk | reflexivity | exact Hw].
+  - cbn [wdom] in Hw. match type of He with context [fmt_v ?w] => destruct (fmt_v w) as [|ch e] end;
+      inversion He; subst E; exists 1; (split; [|reflexivity]).
+    + apply close_or_empty_elems; [exact Hk | reflexivity].
+    + apply elems_text; [exact Hk | reflexivity | exact Hw].
+  - cbn [wdom] in Hw. match type of He with context [fmt_v ?w] => destruct (fmt_v w) as [|ch e] end;
+      inversion He; subst E; exists 1; (split; [|reflexivity]).
+    + apply close_or_empty_elems; [exact Hk | reflexivity].
+    + apply elems_text; [exact Hk | reflexivity | exact Hw].
+  - cbn [wdom] in Hw. match type of He with context [fmt_v ?w] => destruct (fmt_v w) as [|ch e] end;
+      inversion He; subst E; exists 1; (split; [|reflexivity]).
+    + apply close_or_empty_elems; [exact Hk | reflexivity].
+    + apply elems_text; [exact Hk | reflexivity | exact Hw].
+  - cbn [wdom] in Hw. match type of He with context [fmt_v ?w] => destruct (fmt_v w) as [|ch e] end;
+      inversion He; subst E; exists 1; (split; [|reflexivity]).
+    + apply close_or_empty_elems; [exact Hk | reflexivity].
+    + apply elems_text; [exact Hk | reflexivity | exact Hw].
+  - cbn [wdom] in Hw. match type of He with context [fmt_v ?w] => destruct (fmt_v w) as [|ch e] end;
+      inversion He; subst E; exists 1; (split; [|reflexivity]).
+    + apply close_or_empty_elems; [exact Hk | reflexivity].
+    + apply elems_text; [exact Hk | reflexivity | exact Hw].
   - (* VMap *)
     rename m into vv. exists 1. split; [|reflexivity].
     destruct (attrs_of o vv) as [attrs0| |] eqn:Ha; cbn [bind] in He; try discriminate.
@@ -231,7 +249,8 @@ Qed.
 
 Theorem enc_total : forall v key, wdom v = true -> exists E, enc o v key = Ok E.
 Proof.
-  induction v using value_ind2; intros key Hw; cbn [enc]; try (eexists; reflexivity).
+  induction v using value_ind2; intros key Hw; cbn [enc]; try (eexists; reflexivity);
+    try (match goal with |- context [fmt_v ?w] => destruct (fmt_v w); eexists; reflexivity end).
   - destruct (esc o x); eexists; reflexivity.
   - rename m into vv. rewrite (attrs_of_total vv (wdom_attrs vv Hw)). cbn [bind].
     destruct (Nat.eqb _ _); [eexists; reflexivity|].
